@@ -416,7 +416,8 @@ H("k03h_dyn_lengths_expand", "huffman_encoding", ["C03", "C07", "C04"], tier="qu
   functions=["HuffmanOriginalEncoding::get_literal_distance_lengths"],
   bounds="three concrete item layouts (HLIT 257 with HDIST 3 / 6 / 15: two long zero runs, explicit lengths, a repeat crossing into the distance code, a short zero run); every code length value 0..=15 symbolic",
   outside="other layouts; the Huffman code built from these lengths (k03d fixed code, k07d)")
-for sfx, shp, tr in (("exact", "predicted counts right: calculator returns 257 / 1 / 19 entries, header HLIT 257, HDIST 1, HCLEN 19", "experimental"), ("exact_6", "predicted counts right: calculator returns 257 / 1 / 6 entries, header HLIT 257, HDIST 1, HCLEN 6", "quick"), ("grow", "predicted counts too small: calculator returns 257 / 1 / 11 entries, header HLIT 286, HDIST 30, HCLEN 7", "experimental"), ("grow_5", "predicted counts too small: calculator returns 257 / 1 / 4 entries, header HLIT 286, HDIST 30, HCLEN 5", "quick"), ("shrink", "predicted counts too large: calculator returns 286 / 30 / 4 entries, header HLIT 257, HDIST 1, HCLEN 4", "quick")):
+for sfx, shp, tr in (("exact", "predicted counts right: calculator returns 257 / 1 / 19 entries, header HLIT 257, HDIST 1, HCLEN 19", "experimental"), ("exact_6", "predicted counts right: calculator returns 257 / 1 / 6 entries, header HLIT 257, HDIST 1, HCLEN 6", "quick"), ("grow", "predicted counts too small: calculator returns 257 / 1 / 11 entries, header HLIT 286, HDIST 30, HCLEN 7", "experimental"), ("grow_5", "predicted counts too small: calculator returns 257 / 1 / 4 entries, header HLIT 286, HDIST 30, HCLEN 5", "quick"), ("shrink", "predicted counts too large: calculator returns 286 / 30 / 4 entries, header HLIT 257, HDIST 1, HCLEN 4", "quick"),
+                      ("exact_8", "calculator returns 257 / 1 / 8 entries, header HLIT 257, HDIST 1, HCLEN 8", "experimental"), ("grow_9", "calculator returns 257 / 1 / 6 entries, header HLIT 286, HDIST 30, HCLEN 9", "thorough")):
     H("k02c_tree_mirror_" + sfx, "tree_predictor", ["C02", "C08", "C05"], tier=tr, unwind=8, unwindset={"tree_mirror_shape": 21, "calc_bit_lengths": 21, "predict_tree_for_block": 21, "recreate_tree_for_block": 21, "predict_code_type": 140, "predict_code_data": 140, "calc_tc_lengths": 21, "calc_codetree_freq": 8, "predict_ld_trees": 10, "reconstruct_ld_trees": 10, "contract_predict_ld": 10, "contract_reconstruct_ld": 10, "ld_digest": 4, "from_elem|resize|extend_with|append|ConvertVec|to_vec": 330, "sum|fold": 8}, timeout=2400, mem_gb=24,
       claim="recreate_tree_for_block(predict_tree_for_block(header)) == header: HLIT / HDIST / HCLEN corrections (in both directions), order of the corrections, run-length items, the code-length code walked in RFC order over HCLEN entries, corrections consumed exactly",
       functions=["tree_predictor::predict_tree_for_block", "tree_predictor::recreate_tree_for_block", "tree_predictor::predict_ld_trees", "tree_predictor::reconstruct_ld_trees", "tree_predictor::calc_codetree_freq", "tree_predictor::calc_tc_lengths_without_trailing_zeros", "predict_code_type", "predict_code_data"],
